@@ -7,13 +7,18 @@
    PROVED PART (storage layer, L1): on every reachable storage state (`tiles s rg`: the file is tiled by the
    regions rg) backup + open, drop + open of a committed file and optimize_storage preserve the map
    index |-> bytes of live records EXACTLY (optimize only drops the free regions), and the byte-level reopen of a
-   cleanly closed file is the identity (C01 with an empty log).  The collections above (vectors, maps, graph,
-   indexes) and DbImpl keep NO state of their own between operations except cached lengths/capacities reloaded
-   from those records, so equal records give equal query results: that step is NOT proved as a theorem (it
-   would be a verified L2/L3 stack); it is checked on every run by executing each maintenance operation at random
-   points of generated histories on DbFile, Db and the DbAny kinds and comparing the full ORDERED dump plus a
-   fixed battery of searches (result order included) before and after, and by continuing the history on the
-   maintained database side by side with the in-memory one. *)
+   cleanly closed file is the identity (C01 with an empty log).
+   L2 (round 2, below): every storage-backed collection, for every history with reloads and maintenance.
+   L3 (round 4, last section): the WHOLE database as a relation `stored_db` over the record map, assembled from the L2
+   invariants; a stored database LOADS to itself (C05_db_reload), maintenance of the storage keeps it stored and the
+   loaded database identical (C05_db_maintenance), and every order-independent read-only query returns the same
+   result afterwards (C05_db_queries_after_reopen).
+   STILL NOT A THEOREM (hence the property stays partial): that every MUTATION of DbImpl leaves the database stored
+   (C05_db_operations_preserve_stored_db, spelled out in the L3 section) — i.e. "after any history of queries".  It is
+   checked on every run: the extracted loader on the raw records of real database files against the reopened
+   database, and each maintenance operation at random points of generated histories on DbFile, Db and the DbAny kinds
+   with the full ORDERED dump plus a fixed battery of searches (result order included) before and after, the history
+   continuing on the maintained database side by side with the in-memory one. *)
 From Agdb Require Import FileWal FileWalProofs.
 From Agdb Require Import Bytes Records RecordsProofs RecordsTableProofs Storage StorageSpec
   StorageLayout StorageWp StorageOps StorageOps2 StorageRefine StorageReopen StorageOptimize StorageProofs StorageSim.
@@ -331,3 +336,210 @@ Example C05_vec_sample_dbkv :
              last (snd (cl_run [] l)) VbUnit = VbVals [(DString [x41], big)].
 Proof. eexists. split; vm_compute; reflexivity. Qed.
 Print Assumptions C05_vec_sample_dbkv.
+
+(* ======================= the database level (L3): the whole database in the record store =======================
+   theories/StoredDb.v (executable, extracted), StoredDbRep.v (the relation), StoredDbRun/Load/Proofs/Queries/Obs/Final.v.
+
+   load_db m root         the LOADER: the root record DbStorageIndex (record `root`, 1 in db.rs) -> the graph (index
+                          record + four DbVec<i64>) -> the aliases (DbMapData<String, DbId>, DbMapData<DbId, String>) ->
+                          the indexes (DbVec of 24-byte entries: value index of the key ++ index of a
+                          DbMapData<DbValue, DbId>; each entry loaded) -> the values (DbVec<StorageIndex>, each non-zero
+                          slot a DbVec<DbKeyValue>) — the L2 loaders composed in the order of DbImpl::try_new_with_storage,
+                          each component read to the end with the calls the code uses to read it completely — run on a
+                          record store m (index |-> bytes); the result is a `db` of DbModel.v (the model of DbImpl the
+                          query-level theorems C08–C18 are about).
+   stored_db g root d     the REPRESENTATION RELATION (StoredDbRep.v): heap g holds database d.  Built from the L2
+                          predicates only (grep, mrep, vrep for i64 / u64 / 24 raw bytes / DbKeyValue, dbv_rep = C12):
+                          root record with version 1 and six u64 fields; graph = EXACTLY the four arrays of gr d; the two
+                          alias tables hold k2v / v2k of d as multisets (keys distinct); the index vector holds the
+                          indexes of d in order, each key by its value index, each id table the ids as a multiset;
+                          the values vector has one slot per element slot, 0 for an element without properties, else a
+                          DbVec<DbKeyValue> holding EXACTLY its property list; all footprints pairwise distinct.
+                          It assumes NOTHING else (no invariant of d: no well-formed graph, no alias/index consistency,
+                          any table capacity, probe chains not required — the loader scans the slots).
+   sd_eqv d d'            the equality a reload determines: same graph arrays, same property lists (order included),
+                          same alias lookups in both directions, same index keys in the same order, each index's ids
+                          as a multiset.  What it leaves open — the order of the alias list and of an index's ids — is
+                          what a hash table does not keep.  It IMPLIES C13's obs_eq and obs_eq_strong (C05_db_eqv_is_observational). *)
+From Coq Require Import Permutation.
+From Agdb Require Import Graph DbModel Search Queries Revisions UndoObs
+  StoredDb StoredDbRep StoredDbRun StoredDbLoad StoredDbProofs StoredDbQueries StoredDbObs StoredDbFinal StoredDbExample.
+
+(* FULL (nothing assumed beyond stored_db): a record store that holds d LOADS, and what it loads is d up to sd_eqv, with
+   an empty undo stack.  Assembles C05_vec_reload / C05_map_reload / the graph and root lemmas and C12 (law_dbvalue). *)
+Theorem C05_db_reload :
+  forall (m : vmap) (root : N) (d : db),
+    stored_db (m_get m) root d ->
+    exists d', load_db m root = Some d' /\ sd_eqv d d' /\ undo d' = [].
+Proof. exact load_db_of_stored. Qed.
+Print Assumptions C05_db_reload.
+
+(* the loader PROGRAM (the composition of from_storage / value calls) run on the model of storage.rs (C04), file-like or
+   memory-like, in a state refining an abstract map that holds d: it returns what load_db computes (or the storage
+   panics: a request beyond 2^64 bytes) *)
+Theorem C05_db_reload_on_storage :
+  forall (ops : store_ops cdata) (fl : bool), StorageProofs.kind ops fl ->
+  forall s sp root d, Rel s sp -> stored_db (hp sp) root d ->
+    let r := cp_run (st_step cdata ops) (sd_load root) s in
+    snd r = CrDead \/
+    (Rel (fst r) sp /\ exists d', snd r = CrOk d' /\ load_db (sm sp) root = Some d' /\ sd_eqv d d').
+Proof. exact sd_load_on_storage. Qed.
+Print Assumptions C05_db_reload_on_storage.
+
+(* MAINTENANCE: optimize_storage / drop + open / backup + open of the storage (SOptimize / SReopen / SReopenCopy), with
+   no transaction open, on the model of storage.rs: the storage panics or the new state refines a map that STILL holds d
+   (C04's step_refines carries C05_storage_maintenance_partial: same index -> same bytes), and load_db returns THE
+   SAME database (Leibniz equality) before and after — reopen / optimize / backup+open preserve the database *)
+Theorem C05_db_maintenance :
+  forall (ops : store_ops cdata) (fl : bool), StorageProofs.kind ops fl ->
+  forall s sp o root d,
+    Rel s sp -> sdepth sp = 0 -> cv_is_maint o = true -> stored_db (hp sp) root d ->
+    snd (st_step cdata ops s o) = ObPanic \/
+    exists sp', Rel (fst (st_step cdata ops s o)) sp' /\ sdepth sp' = 0 /\
+                stored_db (hp sp') root d /\
+                exists d', load_db (sm sp) root = Some d' /\ load_db (sm sp') root = Some d' /\ sd_eqv d d'.
+Proof. exact sd_maintenance_on_storage. Qed.
+Print Assumptions C05_db_maintenance.
+
+(* the relation is a property of the map index -> bytes alone *)
+Theorem C05_db_stored_depends_on_map_only :
+  forall g g' root d, heq g' g -> stored_db g root d -> stored_db g' root d.
+Proof. exact stored_db_heq. Qed.
+Print Assumptions C05_db_stored_depends_on_map_only.
+
+(* QUERIES: `Queries.exec` is a function of the database; for every read-only query whose result does not depend on a
+   hash table's iteration order (sd_query_ok: select values / keys / key_count / aliases / edge_count with explicit ids
+   or a search, select indexes, select node_count, search — every algorithm except Index; excluded are exactly
+   SelectAllAliases and the Index search, whose results list a table's content in the model's list order) the database
+   loaded after the maintenance operation returns EXACTLY the result d returns (ids, result order, properties,
+   aliases; d at rest: empty undo stack).  Mutating queries: see the missing link below. *)
+Theorem C05_db_queries_after_reopen :
+  forall (ops : store_ops cdata) (fl : bool), StorageProofs.kind ops fl ->
+  forall rv s sp o root d,
+    Rel s sp -> sdepth sp = 0 -> cv_is_maint o = true -> stored_db (hp sp) root d -> undo d = [] ->
+    snd (st_step cdata ops s o) = ObPanic \/
+    exists sp' d1, Rel (fst (st_step cdata ops s o)) sp' /\ sdepth sp' = 0 /\
+                   stored_db (hp sp') root d /\
+                   load_db (sm sp) root = Some d1 /\ load_db (sm sp') root = Some d1 /\ sd_eqv d d1 /\
+                   forall q, sd_query_ok q -> snd (exec rv d1 q) = snd (exec rv d q).
+Proof. exact sd_queries_after_maintenance. Qed.
+Print Assumptions C05_db_queries_after_reopen.
+
+(* the congruence behind it, for any two databases equal up to sd_eqv *)
+Theorem C05_db_eqv_queries :
+  forall rv d d', sd_eqv d d' -> forall q, sd_query_ok q -> undo d = [] -> undo d' = [] ->
+    snd (exec rv d q) = snd (exec rv d' q) /\ sd_eqv (fst (exec rv d q)) (fst (exec rv d' q)).
+Proof. exact sd_exec. Qed.
+Print Assumptions C05_db_eqv_queries.
+
+(* sd_eqv is at least as fine as the observational equivalences of C13 *)
+Theorem C05_db_eqv_is_observational :
+  forall d d', sd_eqv d d' -> obs_eq d d' /\ obs_eq_strong d d'.
+Proof. intros d d' H. split; [apply sd_eqv_obs_eq|apply sd_eqv_obs_eq_strong]; exact H. Qed.
+Print Assumptions C05_db_eqv_is_observational.
+
+(* THE MISSING LINK (not proved; the reason C05 stays PARTIAL at the level of DbImpl):
+
+     C05_db_operations_preserve_stored_db :
+       forall every DbImpl operation op (insert_node, insert_edge, insert_alias, insert_key_value, insert_index,
+       remove_*, ... — db.rs written against GraphImpl / MultiMapImpl / DbKeyValues / DbIndexes over the storage),
+         stored_db (hp sp) 1 d -> cwp fl (the program of op over the storage-backed collections) sp
+           (fun r sp' => stored_db (hp sp') 1 (DbModel.op d) /\ r = the model's result)
+
+   i.e. the simulation of db.rs's MUTATIONS: that the state the code leaves in the storage after each operation is
+   a representation of the state DbModel.v computes.  Its ingredients exist per layer — C05_vec_history /
+   C05_map_history / C05_graph_history (the interfaces on storage), C19_table_refines_multimap (multi_map.rs on the
+   MapData interface; needs the probe-chain invariant PInv as part of the relation), C08_history_refines (graph.rs on
+   the GraphData interface) — but db.rs / db_key_value.rs / db_index.rs themselves are not modelled as programs over
+   the storage and the frames are not composed.  Consequently "after any history of queries" in C05's text is covered
+   by the theorems above only from the point where stored_db holds; that it holds after every history is what the
+   correspondence run checks (`c05 stored`: load_db on the raw records of real files vs. the reopened database). *)
+
+(* ---- non-vacuity: a database CREATED on the model of storage.rs by the programs of Collections.v (cr_create, cg_new +
+   cg_run, cm_new + cm_run, cv_new / cv_push / cv_resize / cv_replace, ce_store, cr_store; theories/StoredDbExample.v) — 2 nodes,
+   1 edge, alias "root", properties ("k", 7), ("name", a 16-byte string: out of line), on the edge (1u64, [1, 2]i64: out
+   of line), an index on "k" — its record store (every live index with its bytes), stored_db for the database that three
+   queries produce from the empty database, load_db = exactly that database; after optimize / drop+open / backup+open of
+   the storage model and on the memory-like storage the record store is the same. *)
+Example C05_db_sample :
+  fold_left (fun d q => fst (exec rv_fixed d q)) sx_queries db_new = sx_db /\
+  (* sx_run = cp_run (st_step cdata ops_file) sx_build s_init *)
+  snd sx_run = CrOk 1 /\
+  live_values cdata ops_file (fst sx_run) = sx_store /\
+  stored_db (m_get sx_store) 1 sx_db /\
+  load_db sx_store 1 = Some sx_db /\
+  sx_after SOptimize = sx_store /\ sx_after SReopen = sx_store /\ sx_after SReopenCopy = sx_store /\
+  sx_store_mem = sx_store.
+Proof. split; [exact sx_db_is|exact sx_sample]. Qed.
+Print Assumptions C05_db_sample.
+
+(* THE LINK TO C19: load_db reads a table by scanning its slots; the code looks an alias up by PROBING (MapImpl::value =
+   MultiMapImpl::value of multi_map.rs, OpenMap.v).  If the two stored alias tables satisfy the invariant C19 proves of
+   every reachable table (PInv — C19_table_refines_multimap, C19_map_unique_keys; for EVERY hash function and minimum
+   capacity), the probing lookups on the stored tables return exactly the model's lookups: DbImpl::db_id(alias) =
+   imap_value, DbImpl::alias(id) = imap_key on the reloaded database (from C19_lookup_finds_exactly_stored).  stored_db
+   itself does not demand PInv (the loader does not need it); that the tables of a real file satisfy it is part of the
+   missing link above (it is what the mutations maintain).  Not stated for the id tables of the indexes: C19 needs a key
+   test deciding Leibniz equality, which dbv_eqb is on canonical values only. *)
+From Agdb Require Import OpenMap OpenMapRefineStep CollMapHist StoredDbProbe.
+
+Theorem C05_db_alias_lookups_by_probing :
+  forall (hs : bytes -> N) (hi : Z -> N) (mincap : nat) (rv : om_revision) g root d w,
+    fix_iter_finished rv = true ->
+    stored_db_w g root d w ->
+    PInv bytes Z hs mincap (ct_omap bytes Z (mw_t (sw_a1 w))) ->
+    PInv Z bytes hi mincap (ct_omap Z bytes (mw_t (sw_a2 w))) ->
+    (forall a, value bytes Z bytes_eqb hs (ct_omap bytes Z (mw_t (sw_a1 w))) a = Done (imap_value (aliases d) a)) /\
+    (forall i, value Z bytes Z.eqb hi (ct_omap Z bytes (mw_t (sw_a2 w))) i = Done (imap_key (aliases d) i)).
+Proof. exact sd_alias_lookups_by_probing. Qed.
+Print Assumptions C05_db_alias_lookups_by_probing.
+
+(* non-vacuity: the alias tables of the example database (2 slots; hashes sending "root" to slot 1 and id 1 to slot 0) *)
+Example C05_db_sample_probe :
+  (forall a, value bytes Z bytes_eqb (fun _ => 1) (ct_omap bytes Z sx_t1) a = Done (imap_value (aliases sx_db) a)) /\
+  (forall i, value Z bytes Z.eqb (fun _ => 0) (ct_omap Z bytes sx_t2) i = Done (imap_key (aliases sx_db) i)).
+Proof. exact sx_probe. Qed.
+Print Assumptions C05_db_sample_probe.
+
+(* THE SHAPE OF THE MISSING LINK, carried out for one component (theories/StoredDbFrame.v).  An operation on one
+   component of a stored database that keeps the component's invariant and touches exactly its footprint — what every L2
+   history theorem delivers (`frame`) — keeps the WHOLE database stored: the other components are untouched and stay
+   disjoint, because all footprints of stored_db are pairwise distinct and live (C05_db_footprint_live).  For the graph:
+   EVERY history of the GraphData interface (set / get of from, to, from_meta, to_meta, grow, shrink_to_fit, capacity,
+   reload, maintenance: C05_graph_history) run on the graph of a stored database leaves a stored database whose graph
+   arrays are the plain arrays' result and whose aliases, indexes and values are the same; the change is confined to the
+   database's footprint.  graph.rs (GraphImpl: insert_node, insert_edge, the removals) is written against exactly this
+   interface, so each of its operations is such a history.  _partial: what is missing for DbImpl::insert_node etc. is that
+   the history graph.rs issues computes Graph.v's function (C08's simulation is on the plain arrays), and the analogous
+   liftings for the alias tables (through C19's multimap), the index vector and the property vectors. *)
+From Agdb Require Import CollSep CollGraph StoredDbFrame.
+
+Theorem C05_db_graph_histories_preserve_stored_db_partial :
+  forall (fl : bool) ops root d w sp (Q : cres (cg_data * list cg_obs) -> spec -> Prop),
+    stored_db_w (hp sp) root d w -> sdepth sp = 0 -> gops_ok (sd_arrays (gr d)) ops ->
+    (forall dg' s' sp',
+        stored_db_w (hp sp') root (with_gr d (sd_graph_of (fst (ga_run (sd_arrays (gr d)) ops)))) (sd_with_graph w dg' s') ->
+        sdepth sp' = 0 ->
+        frame (hp sp) (hp sp') (sd_foot root w) (sd_foot root (sd_with_graph w dg' s')) ->
+        Q (CrOk (dg', snd (ga_run (sd_arrays (gr d)) ops))) sp') ->
+    cwp fl (cg_run (sw_g w) ops) sp Q.
+Proof. exact sd_graph_history. Qed.
+Print Assumptions C05_db_graph_histories_preserve_stored_db_partial.
+
+Theorem C05_db_footprint_live :
+  forall g root d w, stored_db_w g root d w -> live_all g (sd_foot root w).
+Proof. exact stored_db_live. Qed.
+Print Assumptions C05_db_footprint_live.
+
+(* non-vacuity: the hypotheses hold of the example database for a history that grows the graph by one slot and
+   counts a third node (what insert_node does when the free list is empty) *)
+Example C05_db_sample_graph_history :
+  stored_db_w (hp (sd_spec_of sx_store)) 1 sx_db sx_wit /\ sdepth (sd_spec_of sx_store) = 0 /\
+  gops_ok (sd_arrays (gr sx_db)) [GoGet GfFromMeta 0; GoGrow; GoGet GfToMeta 0; GoSet GfToMeta 0 3]%Z /\
+  sd_graph_of (fst (ga_run (sd_arrays (gr sx_db)) [GoGet GfFromMeta 0; GoGrow; GoGet GfToMeta 0; GoSet GfToMeta 0 3]%Z))
+    = snd (insert_node (gr sx_db)).
+Proof.
+  split; [exact sx_stored|]. split; [reflexivity|]. split; [|vm_compute; reflexivity].
+  cbn [gops_ok gop_ok]. unfold ga_fits, i64_range. repeat split; try lia; intros f; destruct f; vm_compute; reflexivity.
+Qed.
+Print Assumptions C05_db_sample_graph_history.
